@@ -4,6 +4,8 @@ import (
 	"context"
 	"errors"
 	"sync"
+
+	"github.com/pojntfx/panrpc/go/pkg/verifhook"
 )
 
 var (
@@ -31,6 +33,8 @@ func NewBroadcaster[T any]() *Broadcaster[T] {
 }
 
 func (b *Broadcaster[T]) Publish(channel string, v T) {
+	verifhook.At("bc.publish.enter", channel)
+
 	b.lock.Lock()
 	if b.closed {
 		b.lock.Unlock()
@@ -46,11 +50,17 @@ func (b *Broadcaster[T]) Publish(channel string, v T) {
 	}
 	b.lock.Unlock()
 
+	verifhook.At("bc.publish.found", channel)
+
 	select {
 	case c.channel <- v:
+		verifhook.At("bc.publish.sent", channel)
+
 		return
 
 	case <-c.ctx.Done():
+		verifhook.At("bc.publish.gaveup", channel)
+
 		return
 	}
 }
